@@ -189,6 +189,7 @@ def r11_3(prog, out):
 
 
 @rule("C11", "R11.4", "a deleted topic can die: only the topic manager holds strong references; subscriptions hold Weak<Topic>", floor=3)
+@rule("C10", "R11.4", "a deleted topic can die: only the topic manager holds strong references; subscriptions hold Weak<Topic>", floor=3)
 def r11_4(prog, out):
     A = prog.anchors
     topic = A.ty("Topic")
